@@ -23,6 +23,14 @@ ST_ = "magpylib/_src/style.py"
 TU_ = "magpylib/_src/display/traces_utility.py"
 TMF = FD + "field_BH_triangularmesh.py"
 MUTANTS = [
+    ("C04", "l2-sensor-rotation-forward", FWB, "Bpart_flat_rot = sens_orient.inv().apply(Bpart_flat)", "Bpart_flat_rot = sens_orient.apply(Bpart_flat)", "red"),
+    ("C08", "l2-reset-forgets-orientation", FWB, "            obj._orientation = obj._orientation[:m0]\n", "            pass\n", "red"),
+    ("C06", "l2-tile-first-pose", FWB, "tile_pos = np.tile(obj._position[-1], (m_tile, 1))", "tile_pos = np.tile(obj._position[0], (m_tile, 1))", "red"),
+    ("C04", "l2-static-sensor-uses-last-entry", FWB, "                    sens_orient = sens._orientation[0]", "                    sens_orient = sens._orientation[-1]", "equivalent"),
+    ("C03", "l1-translate-after-rotate", FWB, "pos_rel_rot = orientation.apply(observers - position, inverse=True)", "pos_rel_rot = orientation.apply(observers, inverse=True) - position", "red"),
+    ("C05", "l2-sumup-drops-first-entry", FWB, "        B = np.sum(B, axis=0, keepdims=True)", "        B = np.sum(B[1:], axis=0, keepdims=True) if len(B) > 1 else B", "red"),
+    ("C04", "l2-unrotated-test-first-entry-only", FWB, "all(all(r == unitQ) for r in sens._orientation.as_quat())", "all(sens._orientation.as_quat()[0] == unitQ)", "red"),
+    ("C04", "l2-handedness-before-rotation", FWB, "            if sens.handedness == \"left\":\n                B[..., pix_slice, 0] *= -1", "            pass", "red"),
     ("C05", "collection-sum-range-short", FWB, "                    B[src_ind] = np.sum(B[src_ind : src_ind + col_len], axis=0)", "                    B[src_ind] = np.sum(B[src_ind : src_ind + col_len - 1], axis=0) if col_len > 1 else B[src_ind]", "red"),
     ("C05", "collection-delete-range-shifted", FWB, "                        B, np.s_[src_ind + 1 : src_ind + col_len], 0", "                        B, np.s_[src_ind + 1 : src_ind + col_len + 0], 0", "equivalent"),
     ("C05", "collection-delete-one-too-many", FWB, "                        B, np.s_[src_ind + 1 : src_ind + col_len], 0", "                        B, np.s_[src_ind + 1 : min(src_ind + col_len + 1, len(B))], 0", "red"),
@@ -175,6 +183,9 @@ def run_one(mut, keep_log=False):
             verdict = "caught" if red else f"MISSED(exit {r.returncode})"
         else:
             verdict = ("equivalent-ok" + ("(undecided)" if "UNDECIDED" in r.stdout else "")) if r.returncode == 0 else f"FALSE-ALARM(exit {r.returncode})"
+        firsts = [ln.split("failed obligation: ")[1][:70] for ln in r.stdout.splitlines() if "failed obligation: " in ln]
+        layers = sorted({("stand-in" if f.startswith("standin.") else "obligation") for f in firsts})
+        verdict += " by " + "+".join(layers) + (f" [{next((f for f in firsts if not f.startswith('standin.')), firsts[0])}]" if firsts else "") if firsts and red else ""
         if keep_log or verdict.startswith(("MISSED", "FALSE")):
             sys.stdout.write(r.stdout[-1500:] + r.stderr[-1500:])
         return pid, name, verdict, dt
@@ -192,7 +203,7 @@ def main(args):
         if sub and not any(x in mut[1] for x in sub):
             continue
         pid, name, verdict, dt = run_one(mut)
-        print(f"{pid} {name:42s} {verdict:16s} {dt:5.1f}s", flush=True)
+        print(f"{pid} {name:42s} {dt:5.1f}s {verdict}", flush=True)
         bad += not verdict.startswith(("caught", "equivalent-ok"))
     # restore evidence of the unchanged tree for the touched properties
     print("selftest: rerun the checks on /repo to restore evidence files")
